@@ -698,6 +698,72 @@ package writer
 //@   safety[C12]
 //@   ensures result.w == w && result.tag == tag
 
+// Copy / Merge: every call into the writer keeps the invariants; the first error ends the copy.
+// (Copying a message without fields into a writer that already failed returns nil - nothing was
+// attempted; the recorded error stays and is returned by End / Build.)
+//@ func (MessageWriter).Copy
+//@   safety[C12]
+//@   requires WI(m.w) && src.table.data <= len(src.bytes)
+//@   requires m.w.err == nil ==> STK1(m.w)
+//@   requires m.w.err == nil ==> STK2(m.w)
+//@   requires m.w.err == nil ==> STK3(m.w)
+//@   requires m.w.err == nil ==> STK4(m.w)
+//@   requires m.w.err == nil ==> STK5(m.w)
+//@   requires m.w.err == nil ==> STK6(m.w)
+//@   requires m.w.err == nil ==> STK7(m.w)
+//@   modifies @WRITER
+//@   modifies @BUF
+//@   ensures[C12] WI(m.w)
+//@   ensures[C12] m.w.err == nil ==> STK1(m.w)
+//@   ensures[C12] m.w.err == nil ==> STK2(m.w)
+//@   ensures[C12] m.w.err == nil ==> STK3(m.w)
+//@   ensures[C12] m.w.err == nil ==> STK4(m.w)
+//@   ensures[C12] m.w.err == nil ==> STK5(m.w)
+//@   ensures[C12] m.w.err == nil ==> STK6(m.w)
+//@   ensures[C12] m.w.err == nil ==> STK7(m.w)
+//@   ensures[C12] (old(m.w.err) != nil ==> m.w.err == old(m.w.err)) && (result != nil ==> m.w.err != nil)
+//@   loop 1 modifies writer.writer.*
+//@   loop 1 modifies writer.writerState.*
+//@   loop 1 modifies writer.stack.*
+//@   loop 1 modifies writer.listStack.*
+//@   loop 1 modifies writer.messageStack.*
+//@   loop 1 modifies writer.stackEntry.*
+//@   loop 1 modifies format.ListElement.*
+//@   loop 1 modifies format.MessageField.*
+//@   loop 1 modifies pools.*
+//@   loop 1 modifies buffer.*
+//@   loop 1 modifies uint8
+//@   loop 1 invariant 0 <= i && WI(m.w) && (old(m.w.err) != nil ==> m.w.err == old(m.w.err))
+//@   loop 1 invariant m.w.err == nil ==> STK1(m.w)
+//@   loop 1 invariant m.w.err == nil ==> STK2(m.w)
+//@   loop 1 invariant m.w.err == nil ==> STK3(m.w)
+//@   loop 1 invariant m.w.err == nil ==> STK4(m.w)
+//@   loop 1 invariant m.w.err == nil ==> STK5(m.w)
+//@   loop 1 invariant m.w.err == nil ==> STK6(m.w)
+//@   loop 1 invariant m.w.err == nil ==> STK7(m.w)
+
+//@ func (MessageWriter).Merge
+//@   safety[C12]
+//@   requires WI(m.w) && src.table.data <= len(src.bytes)
+//@   requires m.w.err == nil ==> STK1(m.w)
+//@   requires m.w.err == nil ==> STK2(m.w)
+//@   requires m.w.err == nil ==> STK3(m.w)
+//@   requires m.w.err == nil ==> STK4(m.w)
+//@   requires m.w.err == nil ==> STK5(m.w)
+//@   requires m.w.err == nil ==> STK6(m.w)
+//@   requires m.w.err == nil ==> STK7(m.w)
+//@   modifies @WRITER
+//@   modifies @BUF
+//@   ensures[C12] WI(m.w)
+//@   ensures[C12] m.w.err == nil ==> STK1(m.w)
+//@   ensures[C12] m.w.err == nil ==> STK2(m.w)
+//@   ensures[C12] m.w.err == nil ==> STK3(m.w)
+//@   ensures[C12] m.w.err == nil ==> STK4(m.w)
+//@   ensures[C12] m.w.err == nil ==> STK5(m.w)
+//@   ensures[C12] m.w.err == nil ==> STK6(m.w)
+//@   ensures[C12] m.w.err == nil ==> STK7(m.w)
+//@   ensures[C12] (old(m.w.err) != nil ==> m.w.err == old(m.w.err)) && (result != nil ==> m.w.err != nil)
+
 // ---- handles (generated by /verif/tools/gen_writer_contracts.py)
 
 //@ func (ValueWriter).Build
